@@ -5,6 +5,7 @@ From Goit Require Import Bytes Obj Tree Index IndexFacts TreeFacts DiffFacts.
 From Goit Require Import Commit World Repo Inv SnapshotFacts.
 From Goit Require Import Config CommitFacts BranchFacts ExactFacts CommitCmdFacts GateFacts.
 From Goit Require Import Bridge.
+From Goit Require HeadFacts.
 Import ListNotations.
 
 (* T0 (tie to the source): every regexp literal of the current Go source denotes
@@ -86,16 +87,16 @@ Theorem C07_commit_succeeds_on_any_staged_difference : forall w e msg c hid s,
     = (after_commit e c msg w root subs, OOk [], do_commit_trace e c msg w root subs).
 Proof. exact history_commit_succeeds. Qed.
 
-(* the very first commit: any non-empty staging area is a difference *)
+(* the very first commit: any non-empty staging area is a difference (that HEAD's branch name
+   is a valid one is an invariant of every reachable repository: HeadFacts.reachable_names_valid) *)
 Theorem C07_first_commit_succeeds : forall w e msg c,
   Reachable w -> ctx_of w = Some c -> w_refs w = [] -> idx_of w <> [] ->
-  valid_branch_name (w_head w) = true ->
   user_set (x_l c) (x_g c) = true ->
   sign_ok (user_name (x_l c) (x_g c)) (user_email (x_l c) (x_g c)) (e_time e) (e_off e) -> msg_ok msg ->
   exists root subs, write_tree_top (idx_of w) = Some (root, subs) /\
     step (ACmd e (CCommit msg)) w
     = (after_commit e c msg w root subs, OOk [], do_commit_trace e c msg w root subs).
-Proof. exact history_first_commit_succeeds. Qed.
+Proof. exact HeadFacts.history_first_commit_succeeds'. Qed.
 
 (* exactly: commit succeeds iff an identity is configured and the staging area
    differs from the HEAD snapshot *)
